@@ -256,7 +256,112 @@ func c12(r *vlib.Run) int {
 	if fl != nil {
 		c12Overlap(r, fl)
 	}
+	c12Multi(r, fl)
 	return n / 2
+}
+
+// c12Multi: one session with several read commands (--files a,b): the options
+// the client encoded apply to every command of the session. Both files have
+// the same content, so the output must be the selected lines twice (in any
+// interleaving of whole lines). Sessions run serverless with the hook trace on:
+// a session whose trace shows the shutdown beginning before the second command
+// was received is the recorded finding c02.cmd-race and is not judged here.
+func c12Multi(r *vlib.Run, fl *fleet) {
+	n := r.N(400, 6000)
+	rng := r.Rng("multi")
+	cases := make([]*c12Case, n)
+	for i := range cases {
+		c := c12Gen(rng)
+		for c.B == 0 && c.A == 0 && c.M == 0 {
+			c = c12Gen(rng)
+		}
+		c.Plain, c.FinalNL, c.SSH = true, true, false
+		cases[i] = c
+	}
+	dir := r.Dir("c12multi")
+	vlib.Parallel(n, 12, func(i int) {
+		c := cases[i]
+		body := strings.Join(c.Lines, "\n") + "\n"
+		p1 := filepath.Join(dir, fmt.Sprintf("m%da.log", i))
+		p2 := filepath.Join(dir, fmt.Sprintf("m%db.log", i))
+		os.WriteFile(p1, []byte(body), 0644)
+		os.WriteFile(p2, []byte(body), 0644)
+		defer os.Remove(p1)
+		defer os.Remove(p2)
+		args := []string{"--files", p1 + "," + p2, "--regex", c.Pattern, "--plain"}
+		if c.Invert {
+			args = append(args, "--invert")
+		}
+		if c.B > 0 {
+			args = append(args, "--before", fmt.Sprint(c.B))
+		}
+		if c.A > 0 {
+			args = append(args, "--after", fmt.Sprint(c.A))
+		}
+		if c.M > 0 {
+			args = append(args, "--max", fmt.Sprint(c.M))
+		}
+		traceFile := filepath.Join(dir, fmt.Sprintf("m%d.trace", i))
+		defer os.Remove(traceFile)
+		res := runServerless(r, "dgrep", args, "", []string{"VERIF_TRACE=" + traceFile})
+		if res.TimedOut {
+			r.Inconclusive("dgrep-watchdog")
+			return
+		}
+		firstShutdown, lastRecv, recvs := -1, -1, 0
+		for k, e := range readTrace(traceFile) {
+			switch e.Name {
+			case "srv.shutdown.begin":
+				if firstShutdown < 0 {
+					firstShutdown = k
+				}
+			case "srv.cmd.recv":
+				lastRecv = k
+				recvs++
+			}
+		}
+		cmdRace := firstShutdown >= 0 && (lastRecv > firstShutdown || recvs < 2)
+		r.Eval(fmt.Sprintf("multi|%s|%v|%d|%d|%d|%v", c.Pattern, c.Invert, c.B, c.A, c.M, c.SSH))
+		r.Count("multi_command_sessions", 1)
+		sel, _ := selection(c.Lines, c.Pattern, c.Invert)
+		want := grepModel(sel, c.B, c.A, c.M)
+		wantCount := map[string]int{}
+		for _, w := range want {
+			wantCount[c.Lines[w]]++
+		}
+		gotCount := map[string]int{}
+		out := strings.TrimSuffix(string(res.Stdout), "\n")
+		nGot := 0
+		if out != "" || len(res.Stdout) > 0 {
+			for _, l := range strings.Split(out, "\n") {
+				gotCount[l]++
+				nGot++
+			}
+		}
+		factor := func(k int) bool {
+			if nGot != k*len(want) {
+				return false
+			}
+			for l, cnt := range wantCount {
+				if gotCount[l] != k*cnt {
+					return false
+				}
+			}
+			return true
+		}
+		switch {
+		case len(want) == 0 && nGot == 0:
+			r.Count("multi_sessions_nothing_selected", 1)
+		case factor(2):
+			r.Count("multi_sessions_both_files_judged", 1)
+		case cmdRace && !res.Hung:
+			r.Count("multi_sessions_cmd_race_not_judged", 1)
+		default:
+			r.Violation("selection-differs-in-multi-command-session", map[string]interface{}{"pattern": c.Pattern, "invert": c.Invert,
+				"before": c.B, "after": c.A, "max": c.M, "ssh": c.SSH, "lines": clipStrings(c.Lines, 60), "want_per_file": len(want),
+				"got_lines": nGot, "got": vlib.Trunc(string(res.Stdout), 1500), "exit": res.Exit, "hung": res.Hung})
+		}
+	})
 }
 
 // c12Overlap: two sessions on one server use the byte-identical pattern with
